@@ -276,6 +276,9 @@ func RefDecodeBody(fields []Field, b []byte, v *Values) (rest []byte, err error)
 			}
 			v.F[f.Spec] = l
 		case "body":
+			if v.U(f.Len) > uint64(len(b)) { // compared before narrowing: int is 32 bits wide in the 386 build
+				return nil, ErrRefShort
+			}
 			n := int(v.U(f.Len))
 			if !need(n) {
 				return nil, ErrRefShort
